@@ -27,6 +27,39 @@ def kvOf (ts : List String) (k : String) : String :=
   | some t => (t.drop (k.length + 1)).toString
   | none => "?"
 
+/-- Which conjunct of `WFGraph` fails first (distribution key; `ok` for well-formed graphs). -/
+def whyNotWF (ext : Ext) (g : Graph) : String :=
+  let pin (p : Pinned) : Option String :=
+    if WFPinned ext p then none else
+    match p with
+    | .git repo r commit =>
+      if !(noChar '?' repo) then some "git-url-qmark"
+      else if !(decide (ext.url repo = some repo)) then some "git-url-reparse"
+      else if !(validCommitHash commit) then some "git-commit"
+      else match r with
+        | .rev _ => some "git-rev-not-commit"
+        | _ => some "git-ref-hash"
+    | .registry name _ cid ns =>
+      if !(noChar '?' name) then some "reg-name"
+      else if !(validateCid cid) then some "reg-cid-not-v0"
+      else match ns with
+        | some d => if d.isEmpty then some "reg-ns-empty" else some "reg-ns-chars"
+        | none => some "reg-other"
+    | _ => some "pinned-other"
+  match g.nodes.findSome? (fun p => if WFName p.name then none else some "pkg-name") with
+  | some w => w
+  | none =>
+  match g.nodes.findSome? (fun p => pin p.source) with
+  | some w => w
+  | none =>
+  if !(g.nodes.all fun p => noChar '(' p.source.display) then "paren-in-source"
+  else if !(pairwiseB (fun p q => !(p.name = q.name && p.source.display = q.source.display)) g.nodes) then "duplicate-node"
+  else if !(g.edges.all fun e => WFDepName e.name) then "dep-name-paren"
+  else if !(g.edges.all fun e => WFKind e.kind) then "salt"
+  else if !(g.edges.all fun e => e.src < g.nodes.length && e.dst < g.nodes.length) then "dangling"
+  else if !(pairwiseB (fun e f => !(e.src = f.src && e.dst = f.dst)) g.edges) then "parallel-edges"
+  else "ok"
+
 def answer (line : String) : String :=
   let (c, i) := splitCase line
   match c with
@@ -79,7 +112,7 @@ def answer (line : String) : String :=
         let dis := g.nodes.any (fun p => needsDisambiguation (g.nodes.map (·.name)) p.name)
         let con := g.edges.any (fun e => e.kind != .library)
         let ren := g.edges.any (fun e => match g.nodes[e.dst]? with | some d => e.name != d.name | none => false)
-        s!"{ms} agree={b01 agree} prop={b01 prop} wf={b01 wf} cls={cls} eq={b01 eq} thm={b01 thm} a={b01 a1}{b01 (toml == "same")}{b01 a2}{b01 a3}{b01 a4} nodes={sizeClass g.nodes.length} edges={sizeClass g.edges.length} dis={b01 dis} contract={b01 con} renamed={b01 ren}"
+        s!"{ms} agree={b01 agree} prop={b01 prop} wf={b01 wf} cls={cls} eq={b01 eq} thm={b01 thm} a={b01 a1}{b01 (toml == "same")}{b01 a2}{b01 a3}{b01 a4} why={whyNotWF ext g} nodes={sizeClass g.nodes.length} edges={sizeClass g.edges.length} dis={b01 dis} contract={b01 con} renamed={b01 ren}"
     | _, _ => "bad-case agree=0 prop=0"
   | _ => "bad-case agree=0 prop=0"
 
